@@ -12,6 +12,11 @@ def run():
     for v in ("records_global_index", "helper_drops_hint"):
         rh = vlib.model_check("HintImpl", "HintImpl_%s.cfg" % v, expect_ok=False, timeout=600)
         chk.add_model("HintImpl/variant %s (must violate)" % v, rh, note="violated: %s" % rh["violated"])
+    # staged work may only be taken over from other workers when the policy steals
+    chk.add_model("IdleStealImpl/no stealing: nothing migrates (NoMigration)",
+                  vlib.model_check("IdleStealImpl", "IdleStealImpl_nosteal.cfg", timeout=600))
+    ri = vlib.model_check("IdleStealImpl", "IdleStealImpl_dev_nosteal.cfg", expect_ok=False, timeout=600)
+    chk.add_model("IdleStealImpl/variant steal_when_disabled (must violate)", ri, note="violated: %s" % ri["violated"])
     (binary,) = vlib.build_harness(["place_harness"])
     nruns = 48 if chk.thorough() else 12
     nhist = 200 if chk.thorough() else 100
